@@ -38,3 +38,28 @@ Example C03_example :
   txflow_monitor 60000 C03_example_ops (run 60000 C03_example_ops) = None /\
   (3 <=? zlen (concat (run 60000 C03_example_ops))) = true.
 Proof. vm_compute. repeat split; reflexivity. Qed.
+
+(* Non-vacuity, reorganisation: tx 1 is announced and sent by the trusted peer, reported safe, confirmed in
+   block 1; block 1 is orphaned by the competing block 2 (through the headers handler: the chain is reverted,
+   in-sync is cleared, the per-height file of height 1 now lists block 2's tx 4); tx 1 is then sent again by an
+   UNTRUSTED peer: it is delivered as new once more (the exception of the property), not safe, still carrying the
+   orphaned block's proof and depth 0 (observation 181 of txflow_stale_monitor, not judged); the delay check does
+   not report it safe (nobody vouched for it after the orphaning); a double spend makes it unsafe; block 3 on the
+   new branch confirms it: a state update with block 3's proof (unsafe stays), the double spend is cancelled. *)
+Example C03_reorg_example_ops : list op :=
+  [OSetInSync true; OInv 1 true; OTx 1 [1000] true STrusted; OAdvance 75000; ODelayCheck;
+   OBlock 1 0 [(1, [1000], true)] true;
+   OReorg 2 0 [(4, [1010], true)] true; OBlockTxs 1; OSetInSync true;
+   OTx 1 [1000] true SUntrusted; OAdvance 75000; ODelayCheck;
+   OTx 2 [1000; 1001] true SUntrusted;
+   OBlock 3 2 [(1, [1000], true)] true; OGetTx 1; OUnconf].
+Example C03_reorg_example :
+  flow_valid 60000 C03_reorg_example_ops = true /\
+  txflow_monitor 60000 C03_reorg_example_ops (run 60000 C03_reorg_example_ops) = None /\
+  nth 6 (run 60000 C03_reorg_example_ops) [] = [0; 0; 1; 2; 3; 1; 2; 1; 4; 1; 0; 0; 0; 2; 1; 1010] /\
+  nth 7 (run 60000 C03_reorg_example_ops) [] = [0; 4] /\
+  nth 9 (run 60000 C03_reorg_example_ops) [] = [0; 1; 1; 0; 0; 0; 0; 1; 1; 1000] /\
+  nth 11 (run 60000 C03_reorg_example_ops) [] = [0] /\
+  nth 13 (run 60000 C03_reorg_example_ops) [] = [0; 3; 2; 3; 2; 2; 0; 1; 1; 1; -1; 2; 1; 0; 1; 0; 0; 3] /\
+  txflow_stale_monitor 60000 C03_reorg_example_ops (run 60000 C03_reorg_example_ops) = Some (9, [181]).
+Proof. vm_compute. repeat split; reflexivity. Qed.
